@@ -37,8 +37,9 @@ type c09Params struct {
 	connMenu       bool
 	stateMenu      bool
 	lateCloser     bool
-	discWriteFails int // socket writes of the client's disconnect responses that may fail (transient error)
-	hbWriteFails   int // socket writes of connection-state requests that may fail: the heartbeat has failed
+	discWriteFails int  // socket writes of the client's disconnect responses that may fail (transient error)
+	secondApp      bool // a second application goroutine calls Send 20 ms after the first one in every interval
+	hbWriteFails   int  // socket writes of connection-state requests that may fail: the heartbeat has failed
 }
 
 func c09Run(p c09Params) func() {
@@ -187,6 +188,23 @@ func c09Run(p c09Params) func() {
 					mc.Sleep(H - (mc.Now() - t0) - H/4 - 3*ms)
 				}
 			})
+			if p.secondApp {
+				mc.GoEnv("app2", func() {
+					for i := 0; ; i++ {
+						mc.Sleep(H/4 + 23*ms)
+						if mc.Now() >= end {
+							return
+						}
+						mc.Log(Call{"Send", 500 + i})
+						t0 := mc.Now()
+						err := t.Send(Msg(500 + i))
+						mc.Log(Ret{"Send", 500 + i, errStr(err), t0})
+						if d := H - (mc.Now() - t0) - H/4 - 23*ms; d > 0 {
+							mc.Sleep(d)
+						}
+					}
+				})
+			}
 			mc.GoEnv("inject", func() {
 				for i := 0; ; i++ {
 					mc.Sleep(H/4 + 57*ms)
@@ -666,6 +684,7 @@ func c09Oracle(p c09Params) func(tr *mc.Trace) []h.Violation {
 		}
 		// ---- data frames, Sends, inbound ----
 		calls := map[int]mc.Duration{}
+		firstTx := map[int]mc.Duration{}
 		rets := map[int]mc.Duration{}
 		okSend := map[int]bool{}
 		inboundClosedAt := mc.Duration(-1)
@@ -732,8 +751,19 @@ func c09Oracle(p c09Params) func(tr *mc.Trace) []h.Violation {
 				switch y := x.Svc.(type) {
 				case *knxnet.TunnelReq:
 					ep := modeAt(e.T)
+					ft, seenTx := firstTx[MsgID(y.Payload)]
+					if !seenTx {
+						ft = e.T
+						firstTx[MsgID(y.Payload)] = e.T
+					}
 					if ep.mode == mConnected && e.T > ep.from {
-						if tc, ok := calls[MsgID(y.Payload)]; ok && tc < ep.from {
+						if tc, ok := calls[MsgID(y.Payload)]; ok && tc < ep.from && ft >= ep.from {
+							// began before the connection was established but transmits for the first time
+							// after it (it was queued behind another Send): it has no old request to repeat
+							if y.Channel != ep.ch {
+								bad("stale-channel:queued-send", "%s at %v: the Send began at %v, was queued, and makes its first transmission after the connection on channel %d was established at %v - with the old channel (%s)", fakesock.Describe(x.Svc), e.T, tc, ep.ch, ep.from, desc)
+							}
+						} else if ok && tc < ep.from {
 							// a Send that began before this connection was established is still retransmitting
 							if y.Channel != ep.ch {
 								bad("stale-channel:send-pending-across-reconnect", "%s at %v: the Send began at %v, before the connection on channel %d was established at %v, and keeps retransmitting with the old channel (%s)", fakesock.Describe(x.Svc), e.T, tc, ep.ch, ep.from, desc)
@@ -797,6 +827,8 @@ func init() {
 	register("both", &h.Scenario{Name: "C09-H1000-menus-F3", Prop: "C09", P: 0, F: 3, D: -1, Run: c09Run(a), Check: c09Oracle(a)})
 	b := c09Params{H: 1000, R: 100, T: 300, horizonHB: 2, stateMenu: true, connMenu: true, spont: true}
 	register("both", &h.Scenario{Name: "C09-H1000-spont-F3", Prop: "C09", P: 0, F: 3, D: -1, Run: c09Run(b), Check: c09Oracle(b)})
+	b2 := c09Params{H: 1000, R: 100, T: 300, horizonHB: 2, connMenu: true, spont: true, secondApp: true}
+	register("both", &h.Scenario{Name: "C09-H1000-spont-two-senders-F3", Prop: "C09", P: 0, F: 3, D: -1, Run: c09Run(b2), Check: c09Oracle(b2)})
 	c := c09Params{H: 1000, R: 100, T: 300, horizonHB: 2, stateMenu: true, connMenu: true, spont: true}
 	register("both", &h.Scenario{Name: "C09-H1000-spont-F1-P1", Prop: "C09", P: 1, F: 1, D: 1, Run: c09Run(c), Check: c09Oracle(c)})
 	d := c09Params{H: 200, R: 100, T: 300, horizonHB: 6, stateMenu: true, connMenu: true}
